@@ -302,3 +302,14 @@ Definition port_holds_f (f : fault) (sendable : bool) (hs : list handler) (d : s
       else port_holds sendable hs d obs
   | None => port_holds sendable hs d obs
   end.
+
+(* the cases for which the theorems say that the checker accepts the model (C09_port_covered_cases):
+   every case except a reply that is due to a requester that cannot be sent to and that no injected
+   fault pre-empts - for those the theorem C09_port_holds_unsendable says that the checker reports
+   exactly the clause port_reply_unsendable_logged (known finding D22) *)
+Definition port_validb (f : fault) (sendable : bool) (hs : list handler) (d : str) : bool :=
+  let base := sendable || negb (existsb is_send (port_spec hs d)) in
+  match f with
+  | Some (st, _) => reaches st hs d || base
+  | None => base
+  end.
